@@ -16,11 +16,12 @@ from .common import VERIF_DIR, REPO, seed_from_env, sub_rng, jdump, jload, diges
 from . import shrink as shrinker
 
 WORKERS = int(os.environ.get("VERIF_WORKERS", "16"))
-RUN_ALARM_S = 60
+RUN_ALARM_S = 180
 
 
-class RunTimeout(Exception):
-    pass
+class RunTimeout(BaseException):
+    """per-run alarm; a BaseException so that no `except Exception` inside a driver can mistake it for a crash of
+    the code under test (that happened once: a slow pair of runs on a loaded machine surfaced as C07.log_differs)"""
 
 
 def _alarm(signum, frame):
